@@ -373,6 +373,24 @@ def corpus_cases():
     return out
 
 
+def small_scope_decls():
+    """every struct/union with 1..3 members taken from a fixed menu (exhaustive)"""
+    import itertools as it
+    menu = [("p", ("sc", x)) for x in ("char", "short", "int", "long", "float", "double", "ldouble")]
+    menu += [("p", ("arr", 3, ("sc", "char")))]
+    menu += [("b", w, nm, ("sc", sc)) for (w, nm, sc) in
+             [(1, True, "int"), (31, True, "int"), (3, True, "char"), (33, True, "long"), (9, True, "ushort"),
+              (0, False, "int"), (5, False, "int")]]
+    out = []
+    for n in (1, 2, 3):
+        for combo in it.product(menu, repeat=n):
+            if all(m[0] == "b" and m[1] == 0 for m in combo):
+                continue
+            for u in (False, True):
+                out.append(("agg", u, list(combo)))
+    return out, len(menu)
+
+
 def main():
     merge_tie()
     t0 = time.time()
@@ -396,6 +414,13 @@ def main():
                 ck.sample({"layout_decl": G.to_str(t)})
         for i, b in enumerate(batches):
             layout_process(b, f"seed={ck.seed} batch={i}")
+    if not ck.replay and only != "pass" and not QUICK:
+        decls, nmenu = small_scope_decls()
+        before = lay_stats["typedefs"]
+        for i in range(0, len(decls), 150):
+            layout_process(decls[i:i + 150], f"small-scope {i}")
+        lay_stats["small_scope"] = {"declarations": len(decls), "new_typedefs": lay_stats["typedefs"] - before,
+                                    "rule": f"all struct/union with 1..3 members from a menu of {nmenu} (7 scalars, char[3], 7 bit-field shapes)"}
     ck.stage("layout-tie", wall=round(time.time() - t0, 1), **{k: v for k, v in lay_stats.items() if k != "classes"})
     ck.log("layout tie:", lay_stats)
     t1 = time.time()
@@ -408,7 +433,9 @@ def main():
                       "passing: distinct prototypes with >=1 aggregate parameter/return; non-trivial = some aggregate "
                       "travels (partly) in registers")
     ck.cov["distribution"] = {"layout": lay_stats, "passing": pstats}
-    ck.cov["exhaustive"] = False
+    ck.cov["exhaustive"] = (not QUICK)   # thorough: the small-scope sub-spaces below are enumerated completely
+    ck.cov["exhaustive_subspaces"] = [] if QUICK else [
+        lay_stats.get("small_scope", {}).get("rule", ""), pstats.get("small_scope", {}).get("rule", "")]
     ck.assumptions += [
         "object sizes < 2^31 (C arithmetic in mir_size_t/int modelled in Nat)",
         "gcc 12 -O0 is the platform ABI reference (psABI + GCC bit-field rules); sysvLay/sysvClass are checked against it on every run",
